@@ -625,6 +625,14 @@ impl Sys for C12 {
         }
         if let Some(SV::M(f)) = rest.get_mut("duckscriptsdk::command::forin") {
             f.remove("meta_info");
+            // frames left by loops that were exited through an error are never removed, so the stack
+            // can grow without bound; identical frames are interchangeable (a frame is only ever
+            // compared by line / context and popped one at a time), so the key keeps the set of
+            // distinct frames instead of the sequence
+            if let Some(SV::L(frames)) = f.get_mut("call_stack") {
+                frames.sort();
+                frames.dedup();
+            }
         }
         format!("{:?}|{}|{:?}", contents, s.released.is_some(), rest).into_bytes()
     }
